@@ -92,6 +92,19 @@ FAMILIES = {
     'req_chunks': ('req', {}, pump(POSTH + TE, b'1\r\na\r\n', b'0\r\n\r\n')),
     'req_chunk_ext': ('req', BIG, pump(POSTH + TE + b'1', b';e=v', b'\r\na\r\n0\r\n\r\n')),
     'req_chunk_hexdigits': ('req', BIG, pump(POSTH + TE, b'0', b'1\r\na\r\n0\r\n\r\n')),
+    # request-side twins of the response-side chunk-size line families (the request parser is stricter today; a change that makes it
+    # as tolerant as the response parser must also be as careful)
+    'req_chunk_empty_lines': ('req', {}, pump(POSTH + TE, b'\r\n', b'1\r\na\r\n0\r\n\r\n')),
+    'req_chunk_spaces': ('req', BIG, pump(POSTH + TE, b' ', b'1\r\na\r\n0\r\n\r\n')),
+    'req_chunk_tabs_crs': ('req', BIG, pump(POSTH + TE, b'\t\r', b'1\r\na\r\n0\r\n\r\n')),
+    'req_chunk_blank_lines_sp': ('req', {}, pump(POSTH + TE, b' \r\n', b'1\r\na\r\n0\r\n\r\n')),
+    'req_chunk_bad_then_body': ('req', {}, pump(POSTH + TE + b'zz\r\n', b'not chunked %d\r\n', b'')),
+    'req_chunks_then_empty_lines': ('req', {}, pump(POSTH + TE + b'1\r\na\r\n', b'\r\n', b'0\r\n\r\n')),
+    'res_chunks_then_empty_lines': ('res', {}, pump(RS + TE + b'1\r\na\r\n', b'\r\n', b'0\r\n\r\n')),
+    'res_chunk_blank_lines_sp': ('res', {}, pump(RS + TE, b' \r\n', b'1\r\na\r\n0\r\n\r\n')),
+    'req_header_name_spaces': ('req', BIG, pump(RQ + b'X-S', b' ', b': v\r\n\r\n')),
+    'req_header_cr_run': ('req', BIG, pump(RQ + b'X-C: v', b'\r', b'\n\r\n')),
+    'req_junk_after_request': ('req', {}, pump(OKREQ, b'junk line\r\n', b'')),
     'req_trailers_distinct': ('req', {}, pump(POSTH + TE + b'1\r\na\r\n0\r\n', b'T-%d: v\r\n', b'\r\n')),
     'req_urlencoded_body': ('req', {'URLENC_PARSER': 1}, body_cl(UEH, b'x=1', b'&p%d=v%%41', b'')),
     'req_urlencoded_body_chunks': ('req', {'URLENC_PARSER': 1}, body_chunked_each(UEH, b'&p%d=v%%41')),
